@@ -214,3 +214,84 @@ class Stats:
 
 def parse_err_kind(line):
     return line if line.startswith('ERR') else 'TREE'
+
+
+# ----------------------------------------------------------------------------- document jobs
+
+def eval_docs(job):
+    """Worker: generate job['n'] documents with job['gen'](rng, i) -> (src, ast, extra), parse each
+    once per tolerance with the implementation, ask the model driver for the same parses (if
+    job['model']) and run job['oracle'](src, ast, extra, parsed) -> [(key, what, info)] on the
+    strict parse.  Everything is derived from random.Random(job['seed']).
+
+    Returns a dict of plain data: counts, disagreements, oracle failures, statistics."""
+    import random
+    rng = random.Random(job['seed'])
+    gen_fn, oracle_fn = job['gen'], job.get('oracle')
+    tols = job.get('tols', (0,))
+    with_model = job.get('model', True)
+    st = Stats()
+    out = {'n': 0, 'corr_cases': 0, 'corr_fail': [], 'orc_fail': [], 'hashes': set(), 'sample': None,
+           'stats': st, 'ast_of_failure': []}
+    docs = []
+    for i in range(job['n']):
+        src, ast, extra = gen_fn(rng, i, job)
+        docs.append((src, ast, extra))
+    reqs, want = [], []
+    for src, ast, extra in docs:
+        skip = ast.skip if ast is not None else (extra or {}).get('skip', ())
+        parsed0 = None
+        for tol in tols:
+            p = impl_parse(src, tol, skip)
+            if tol == 0:
+                parsed0 = p
+            st.c['parse:%s:tol%d' % (parse_err_kind(p[0]), tol)] += 1
+            if with_model:
+                reqs.append(common.parse_req(src, tol, skip))
+                want.append((src, tol, skip, p[0]))
+        if parsed0 is None:
+            parsed0 = impl_parse(src, 0, skip)
+        out['n'] += 1
+        if ast is not None:
+            st.doc(src, ast)
+        nontrivial = job['nontrivial'](src, ast, extra) if job.get('nontrivial') else True
+        if nontrivial:
+            out['hashes'].add(hash(src))
+        if oracle_fn is not None:
+            for key, what, info in (oracle_fn(src, ast, extra, parsed0) or ()):
+                if len(out['orc_fail']) < 40:
+                    d = {'key': key, 'what': what, 'input': src, 'skip': list(skip)}
+                    d.update(info or {})
+                    out['orc_fail'].append(d)
+                    out['ast_of_failure'].append(ast)
+                st.c['oracle_failure:' + key] += 1
+        if out['sample'] is None and len(src) > 20:
+            out['sample'] = {'input': src[:300], 'result': parsed0[0][:200]}
+    if with_model and reqs:
+        got = common.model_batch(reqs)
+        for (src, tol, skip, w), g in zip(want, got):
+            out['corr_cases'] += 1
+            if w != g and len(out['corr_fail']) < 40:
+                out['corr_fail'].append({'key': 'parse-mismatch', 'what': 'model and implementation differ (tol %d)' % tol,
+                                         'input': src, 'skip': list(skip), 'tol': tol, 'impl': w[:300], 'model': g[:300]})
+    return out
+
+
+def merge_jobs(results, r_corr, r_orc):
+    """Fold worker results into the correspondence / oracle Result objects."""
+    st = Stats()
+    for o in results:
+        st.merge(o['stats'])
+        if r_corr is not None:
+            r_corr.evaluations += o['corr_cases']
+            r_corr.nontrivial |= o['hashes']
+            r_corr.failures += o['corr_fail']
+            if o['sample']:
+                r_corr.sample(o['sample'])
+        if r_orc is not None:
+            r_orc.evaluations += o['n']
+            r_orc.nontrivial |= o['hashes']
+            r_orc.failures += o['orc_fail']
+            if o['sample']:
+                r_orc.sample(dict(o['sample'], verdict='holds'))
+    return st
